@@ -10,7 +10,7 @@
 (*                                                                          *)
 (*  T.era        "byron" | "shelley" | "allegra" | "mary" | "alonzo" | "babbage" | "conway" *)
 (*  T.nIns, T.insMissing, T.insDup   inputs listed / not in the UTxO / repeated            *)
-(*  T.spent      resolved spent outputs   [coin, assets: Seq([id, q]), net, kh, sh]       *)
+(*  T.spent      resolved spent outputs   [coin, assets: Seq([id, q]), net, kh, sh, dh]   *)
 (*  T.outs       produced outputs (same shape)                                             *)
 (*  T.fee, T.mint: Seq([id, q]) (q signed)                                                 *)
 (*  T.special    certificates / withdrawals / treasury / donation / governance present     *)
@@ -20,7 +20,8 @@
 (*  T.redeemers  Seq([mem, steps, tag, idx]), T.rform "list" | "map" | "none"             *)
 (*  T.plutus     uses Plutus scripts (witness set or reference), T.plutusWit (witness set) *)
 (*  T.size       the ledger's transaction size (traversal size)                            *)
-(*  T.pp         [a, b, maxSize, maxMem, maxSteps, coinsPerByte, maxValSize, maxColl, collPct, langs] *)
+(*  T.pp         [a, b, maxSize, maxMem, maxSteps, coinsPerByte, minAdaUnits, dhUnits, maxValSize,   *)
+(*                maxColl, collPct, langs]                                                 *)
 (*  ... and the per-rule facts used by Breaks (see below).                                 *)
 (*                                                                          *)
 (* Property predicates:                                                     *)
@@ -100,6 +101,12 @@ RuleEras == [
 RuleNames == DOMAIN RuleEras
 Rules(T) == {R \in RuleNames : T.era \in RuleEras[R]}
 
+\* A lower bound of the minimum ada every output must hold, whatever its value: the era's price unit
+\* (T.pp.coinsPerByte: minUTxOValue in Shelley-MA, coins per UTxO word in Alonzo, per byte in Babbage/Conway)
+\* times the units an output costs at least (T.pp.minAdaUnits: 1 | 27 + 1 value word | 160 bytes overhead)
+\* plus, in Alonzo, 10 words for a datum hash (T.pp.dhUnits).  Below this floor the rule is broken for sure.
+MinAdaFloor(T, o) == MulSmall(T.pp.coinsPerByte, T.pp.minAdaUnits + (IF o.dh THEN T.pp.dhUnits ELSE 0))
+
 Avail(T) == Range(T.witScripts) \cup Range(T.refScripts)
 CollNet(T) == Sub(CoinSum(T.coll), T.collReturn.coin)     \* collateral actually paid
 HasAssets(o) == \E i \in 1..Len(o.assets) : ~IsZero(o.assets[i].q)
@@ -115,7 +122,7 @@ Breaks(R, T) ==
       [] R = "RefInUtxo"       -> T.refMissing > 0
       [] R = "ValidityUpper"   -> T.ttl.has /\ Lt(T.ttl.v, T.slot)
       [] R = "ValidityLower"   -> T.vstart.has /\ Lt(T.slot, T.vstart.v)
-      [] R = "MinAda"          -> ~IsZero(T.pp.coinsPerByte) /\ \E i \in 1..Len(T.outs) : IsZero(T.outs[i].coin)
+      [] R = "MinAda"          -> \E i \in 1..Len(T.outs) : Lt(T.outs[i].coin, MinAdaFloor(T, T.outs[i]))
       [] R = "ValueSize"       -> T.pp.maxValSize = 0 /\ T.outs # <<>>
       [] R = "OutNetwork"      -> \E i \in 1..Len(T.outs) : T.outs[i].net >= 0 /\ T.outs[i].net # T.envNet
       [] R = "TxNetwork"       -> T.txNet >= 0 /\ T.txNet # T.envNet
